@@ -147,6 +147,20 @@ func main() {
 	}
 	wg.Wait()
 	pd.floors(run)
+	if p := os.Getenv("VERIF_MERGE_DUMP"); p != "" && *fProp == "C04" {
+		// the end-to-end part of C04 (system rig: real CollectionReader, pause / resume / restart, real writer over
+		// gRPC) ran first and dumped its Run; both parts decide the same property and share one evidence file
+		if err := run.MergePrefixed(p, "e2e_"); err != nil {
+			run.Inconclusive("the end-to-end part (system rig) left no result: " + err.Error())
+		}
+		run.Floor("e2e_decided_scenarios", run.Pick(5, 25))
+		run.Floor("e2e_drop_calls_observed", run.Pick(5, 25))
+		run.Floor("e2e_decided_K4", 1)
+		run.Floor("e2e_decided_K5", 1)
+		run.Floor("e2e_databases", 2)
+		run.Rule += " PLUS the end-to-end part (counters e2e_*): whole CDC service in a child process, one task over all databases, 2 databases x 1-2 collections x 1-3 shards x 1-3 partitions; scenario kinds K1 start-up scan then drop partition, K2 objects created while running, K3 drop collection, K4 drop while paused / killed then resume / restart, K5 pause / resume / delete without any drop, K6 pause while the drop request is pending behind a full event queue; drop requests observed at the fake downstream (routing database from gRPC metadata) against the supervisor's clock."
+		run.Assumptions = append(run.Assumptions, "end-to-end part: fakemilvus is the downstream; a drop re-issued after a KILL is tolerated (counted), quiescence = sentinel rows accepted on every live stream by the current incarnation")
+	}
 	vf.CollectRaces(run)
 	os.Exit(run.Finish(vf.Out()))
 }
